@@ -139,8 +139,78 @@ func (d PrefixData) Process() (artifact.Artifact, error) {
 	return textArtifact{data: sb.String()}, nil
 }
 
+// SplitNode is a hand-written node type (not a nodes.Struct) with two output
+// ports, Upper and Lower: which PORT of a node a connection comes from is part
+// of the wiring a saved graph must preserve. No node type shipped with the
+// repository has a second output port; a user-registered one may.
+type SplitNode struct {
+	In      nodes.NodeOutput[string]
+	rewired int
+}
+
+type splitOut struct {
+	n    *SplitNode
+	port string
+}
+
+func (o splitOut) Node() nodes.Node { return o.n }
+func (o splitOut) Port() string     { return o.port }
+func (o splitOut) Value() string {
+	v := nodes.TryGetOutputValue(o.n.In, "none")
+	if o.port == "Upper" {
+		return "U(" + strings.ToUpper(v) + ")"
+	}
+	return "l(" + strings.ToLower(v) + ")"
+}
+
+type splitDep struct{ ref nodes.NodeOutputReference }
+
+func (d splitDep) Name() string           { return "In" }
+func (d splitDep) Dependency() nodes.Node { return d.ref.Node() }
+func (d splitDep) DependencyPort() string { return d.ref.Port() }
+
+func (n *SplitNode) Upper() nodes.NodeOutput[string] { return splitOut{n: n, port: "Upper"} }
+func (n *SplitNode) Lower() nodes.NodeOutput[string] { return splitOut{n: n, port: "Lower"} }
+// A pass-through node: it changes when it is re-wired or when what it reads
+// changes, and it is as stale as what it reads.
+func (n *SplitNode) Version() int {
+	v := n.rewired << 20
+	if n.In != nil {
+		v += n.In.Node().Version()
+	}
+	return v
+}
+func (n *SplitNode) State() nodes.NodeState {
+	if n.In != nil {
+		return n.In.Node().State()
+	}
+	return nodes.Processed
+}
+func (n *SplitNode) Dependencies() []nodes.NodeDependency {
+	if n.In == nil {
+		return nil
+	}
+	return []nodes.NodeDependency{splitDep{ref: n.In}}
+}
+func (n *SplitNode) SetInput(input string, output nodes.Output) {
+	if input != "In" {
+		panic("SplitNode has no input " + input)
+	}
+	n.rewired++
+	if output.NodeOutput == nil {
+		n.In = nil
+		return
+	}
+	n.In = output.NodeOutput.(nodes.NodeOutput[string])
+}
+func (n *SplitNode) Outputs() []nodes.Output {
+	return []nodes.Output{{Type: "string", NodeOutput: n.Upper()}, {Type: "string", NodeOutput: n.Lower()}}
+}
+func (n *SplitNode) Inputs() []nodes.Input { return []nodes.Input{{Name: "In", Type: "string"}} }
+
 func init() {
 	f := &refutil.TypeFactory{}
+	refutil.RegisterType[SplitNode](f)
 	refutil.RegisterType[nodes.Struct[artifact.Artifact, PrefixData]](f)
 	refutil.RegisterType[nodes.Struct[artifact.Artifact, JoinData]](f)
 	refutil.RegisterType[nodes.Struct[string, FmtData]](f)
@@ -159,6 +229,7 @@ type typeInfo struct {
 	Key     string
 	Inputs  []portInfo
 	OutType string
+	Outs    []portInfo // every output port (OutType is the type of the first)
 	IsParam bool
 }
 
@@ -180,6 +251,9 @@ func loadTypes(inst *graph.Instance) {
 		sort.Slice(ti.Inputs, func(a, b int) bool { return ti.Inputs[a].Name < ti.Inputs[b].Name })
 		if len(t.Outputs) > 0 {
 			ti.OutType = t.Outputs[0].Type
+		}
+		for _, o := range t.Outputs {
+			ti.Outs = append(ti.Outs, portInfo{Name: o.Name, Type: o.Type})
 		}
 		typeTable = append(typeTable, ti)
 	}
@@ -560,7 +634,7 @@ func (Scenario) Run(c choice.Chooser, opt sim.Options) (res sim.Result) {
 			wt = 4
 		case strings.Contains(k, "c12.JoinData"), strings.Contains(k, "c12.FmtData"):
 			wt = 12
-		case strings.Contains(k, "c12.PrefixData"):
+		case strings.Contains(k, "c12.PrefixData"), strings.Contains(k, "c12.SplitNode"):
 			wt = 8
 		case strings.Contains(k, "SumData"), strings.Contains(k, "TextNodeData"):
 			wt = 8
@@ -815,8 +889,24 @@ func (Scenario) Run(c choice.Chooser, opt sim.Options) (res sim.Result) {
 						maxArr = n + 1
 					}
 				}
-				p := try(func() { w.inst.ConnectNodes(out, "Out", in, name) })
-				hist = append(hist, fmt.Sprintf("connect %s.Out -> %s.%s %s", out, in, name, p))
+				outPort := "Out"
+				if ot := w.typeOf(out); ot != nil && len(ot.Outs) > 1 {
+					// a node with several output ports: any port of the right type
+					var ports []string
+					for _, o := range ot.Outs {
+						if o.Type == port.Type {
+							ports = append(ports, o.Name)
+						}
+					}
+					if len(ports) > 0 {
+						outPort = ports[c.Intn("connect:outport", len(ports))]
+						res.Count("probe:connection-from-a-second-output-port", 1)
+					}
+				} else if ot != nil && len(ot.Outs) == 1 {
+					outPort = ot.Outs[0].Name
+				}
+				p := try(func() { w.inst.ConnectNodes(out, outPort, in, name) })
+				hist = append(hist, fmt.Sprintf("connect %s.%s -> %s.%s %s", out, outPort, in, name, p))
 				res.Count("op:connect", 1)
 				wiringEdits++
 			}
